@@ -188,6 +188,22 @@ theorem consistent_established_spaceCreate (space acl settings : Nat) (hne : set
       simp [spaceBase, Store.get_set, Store.get_mkColl, Store.get_addIndex, Store.get_empty]))
     (consistent_spaceBase space acl)
 
+/-- the boolean predicate the driver evaluates on the model's store after every operation (and that
+the harness compares with the Go oracle's verdict on the real database) implies `Consistent` -/
+theorem consistentB_sound (s : Store) (acl : Nat) (h : consistentB s acl = true) : Consistent s acl := by
+  unfold consistentB at h
+  simp only [Bool.and_eq_true, List.all_eq_true] at h
+  obtain ⟨hd, ha⟩ := h
+  refine ⟨?_, ?_, aclOkB_sound ha⟩
+  · intro id c hc
+    have := hd _ (get_mem (changeAt_get hc))
+    simp only [hc, if_true] at this
+    exact changeOkB_sound this
+  · intro t hv hne hh hroot
+    have := hd _ (get_mem (headsAt_get hh))
+    simp only [hh, storedInB_complete hroot, hne, ne_eq, not_false_eq_true, and_self, if_true] at this
+    exact headsOkB_sound this
+
 /-- together with `op_crash_atomic`: whatever boundary the process dies at, what is found on disk
 satisfies the predicate (given it did before and the input is well-formed) -/
 theorem crash_consistent_addAll (s : Store) (acl t : Nat) (chs : List NewChange) (heads : List Nat)
